@@ -1413,6 +1413,8 @@ def type_matches(fr, v, t):
         return isinstance(v, (ATable, AView, NPArr)) or (isinstance(v, ABits) and v.kind == "np")
     if tn in ("Enum",):
         return isinstance(v, (AEnum, EnumMember))
+    if isinstance(v, AObj) and getattr(v.cls, "stands_for_external", None) == tn:
+        return True     # a rule's stand-in object for an external class (datetime ...)
     return False
 
 
